@@ -160,4 +160,24 @@ theorem unsaved_extents_unchanged (mn mx b e : Int)
     (the defect fixed in ec65a94) -/
 example : (adjustIdx false 1 1 0 0).2.2 = false ∧ (adjustIdx false 1 1 0 0).1 ≠ 1 := by decide
 
+/-! ### Branch heads rebuilt at start-up
+
+The running server moves a branch's head only when a child *on that branch* is created; the table rebuilt at
+start-up (`branchHeads`, shape regenerated) must agree. -/
+
+/-- is a node (its branch, the branches of its children) the head of its branch in the rebuilt table? -/
+def rebuiltHead (sameBranchOnly : Bool) (branch : String) (children : List String) : Bool :=
+  if sameBranchOnly then !(children.any (· == branch)) else children.isEmpty
+
+/-- what the running server has: the tip of a branch stays its head until a child continues the branch -/
+def liveHead (branch : String) (children : List String) : Bool := !(children.any (· == branch))
+
+theorem rebuilt_heads_agree_with_live (branch : String) (children : List String) :
+    rebuiltHead Gen.branchHeadIgnoresOtherBranchChildren branch children = liveHead branch children := by
+  have hg : Gen.branchHeadIgnoresOtherBranchChildren = true := by decide
+  rw [hg]; rfl
+
+/-- the earlier shape (only childless nodes) loses master's head after POST branch on its tip (fixed in 00afb16) -/
+example : rebuiltHead false "" ["side"] = false ∧ liveHead "" ["side"] = true := by decide
+
 end Dvid.Props.C03
